@@ -53,6 +53,18 @@ class TLCResult:
         self.coverage = {}      # action name -> (distinct, generated)
         self.wall = 0.0
         self.cmd = ""
+        self.out_path = None
+        self.njson = 0
+
+    def iter_json(self):
+        """Decode the exported lines one at a time (for exports too large to hold in memory)."""
+        with open(self.out_path) as f:
+            for line in f:
+                if _JSON_LINE.match(line):
+                    try:
+                        yield json.loads(json.loads(line))
+                    except ValueError:
+                        pass
 
     def stats(self):
         return {"generated": self.generated, "distinct": self.distinct, "depth": self.depth}
@@ -63,7 +75,7 @@ _JSON_LINE = re.compile(r'^"[\[{]')
 
 def run_tlc(module, cfg=None, tag=None, workers=None, simulate=None, depth=None,
             env=None, timeout=900, coverage=False, seed_=None, allow_violation=False,
-            extra=None, dfs=False):
+            extra=None, dfs=False, stream=False):
     """Run TLC on spec/<module>.tla with spec/<cfg>.cfg.  Returns TLCResult.
 
     simulate: number of behaviours (-> -simulate num=N), depth: -depth D.
@@ -109,15 +121,21 @@ def run_tlc(module, cfg=None, tag=None, workers=None, simulate=None, depth=None,
     r.wall = time.time() - t0
     r.exit = rc
     r.cmd = " ".join(cmd[cmd.index("tlc2.TLC"):])
-    with open(out_path) as f:
-        r.stdout = f.read()
-    for line in r.stdout.splitlines():
+    r.out_path = out_path
+    other = []
+    fin = open(out_path)
+    for line in fin:
+        line = line.rstrip("\n")
         if _JSON_LINE.match(line):
+            if stream:          # large exports are decoded lazily by iter_json()
+                r.njson += 1
+                continue
             try:
                 r.json.append(json.loads(json.loads(line)))
             except ValueError:
                 pass
             continue
+        other.append(line)
         m = re.match(r"(\d+) states generated, (\d+) distinct states found", line)
         if m:
             r.generated, r.distinct = int(m.group(1)), int(m.group(2))
@@ -143,6 +161,10 @@ def run_tlc(module, cfg=None, tag=None, workers=None, simulate=None, depth=None,
             d, g = int(m.group(4)), int(m.group(5))
             od, og = r.coverage.get(a, (0, 0))
             r.coverage[a] = (max(od, d), max(og, g))
+    fin.close()
+    r.stdout = "\n".join(other)
+    if not stream:
+        r.njson = len(r.json)
     bad = rc != 0 or "Error:" in r.stdout
     if bad and not (allow_violation and r.violated):
         tail = "\n".join(r.stdout.splitlines()[-40:])
@@ -238,7 +260,8 @@ class Judge:
         self.evaluations += 1
         if case_id is not None:
             self.nontrivial.add(case_id)
-        assert key.startswith(self.pid + "|") and key.count("|") == 3, key
+        if not (key.startswith(self.pid + "|") and key.count("|") == 3):
+            raise MachineryError("malformed finding key (a part contains '|'): %r" % key)
         self.failures.setdefault(key, []).append(detail)
 
     def skip(self, reason):
